@@ -212,3 +212,23 @@ Proof.
   - destruct (Hid eq_refl) as [-> ->]. reflexivity.
   - rewrite Hi, <- Hst. reflexivity.
 Qed.
+
+(* ---------- Uniquifier.get_unique_objs / map_unique_objs on the constructor's own output ---------- *)
+Lemma uniq_go_idx_lt ids : forall i seen n j, In j (fst (uniq_go ids i seen n)) -> (i <= j < i + length ids)%nat.
+Proof. exact (PackerProofs.uniq_go_idx_range ids). Qed.
+
+Theorem get_unique_objs_refines (f : nat -> obj) ids uo inv' nu (us : list nat) :
+  length us = length ids ->
+  uniquifier_get_unique_objs (Z.of_nat (length ids)) uo (map Z.of_nat (fst (uniq_ids ids))) inv' nu false (Some (map f us)) =
+  Ok (map f (select 0%nat us (fst (uniq_ids ids)))).
+Proof.
+  intros Hlen. unfold uniquifier_get_unique_objs, py_len. rewrite map_length, Hlen, Z.eqb_refl.
+  rewrite (mapM_list_get (map f us) (f 0%nat)).
+  - f_equal. unfold select. rewrite map_map. apply map_ext. intros i. apply map_nth.
+  - intros j Hj. rewrite map_length, Hlen. unfold uniq_ids in Hj. pose proof (uniq_go_idx_lt ids 0 [] 0 j Hj). lia.
+Qed.
+
+(* with nothing passed, the unique objects kept by the constructor come back *)
+Theorem get_unique_objs_default (n : Z) (uo : list obj) (ui inv' : list Z) (nu : Z) (au : bool) :
+  uniquifier_get_unique_objs n uo ui inv' nu au None = Ok uo.
+Proof. reflexivity. Qed.
